@@ -72,10 +72,9 @@ class Hooks(W.Hooks):
                                     f"step {step}: a row taken earlier from table entry {tid} answered .{acc} with {val}, now {cur}")
         if "key_vector" in si.info:
             # an index vector handed to v[key] = ... is read, never written
-            kid, kvals = si.info["key_vector"]
-            ke = world.by_id(kid)
-            if ke is not None and list(ke.obj) != kvals:
-                return ctx.fail(f"write/{si.op}/index-vector-changed", f"step {step}: the key vector {kvals} reads {list(ke.obj)} after the assignment")
+            kvec, kvals = si.info["key_vector"]
+            if list(kvec) != kvals:
+                return ctx.fail(f"write/{si.op}/index-vector-changed", f"step {step}: the key vector {kvals} reads {list(kvec)} after the assignment")
         allowed = set(si.may_change) if si.kind in ("write", "rename") else set()
         if si.kind in ("write", "rename"):
             tgt = world.by_id(si.info.get("target"))
